@@ -56,8 +56,8 @@ def gen_prog(rng, base, n):
 def cases(rng, tier):
     n = fw.tier_scale(tier, 1200, 12000)
     for _ in range(n):
-        via = rng.choice(["direct", "direct", "operator"])
-        nprod = 1 if via == "operator" else rng.choice([1, 1, 2])
+        via = rng.choice(["direct", "direct", "operator", "operator_sub"])
+        nprod = 1 if via != "direct" else rng.choice([1, 1, 2])
         progs = [gen_prog(rng, 10 * (p + 1), rng.choice([0, 1, 2, 3, 4, 6])) for p in range(nprod)]
         left = [len(p) for p in progs]
         ops = []
@@ -117,6 +117,15 @@ def impl(case):
             return Disposable()
 
     sched = Manual()
+    other_pending = []
+
+    class Other:
+        """a different scheduler handed in at subscribe time: observe_on must NOT deliver on it"""
+
+        def schedule(self, action, state=None):
+            other_pending.append((action, state))
+            return Disposable()
+
     down = _SeqDown(case["raises"])
     obs = None
     if case["via"] == "direct":
@@ -127,7 +136,10 @@ def impl(case):
         from reactivex.subject import Subject
 
         target = Subject()
-        target.pipe(ops.observe_on(sched)).subscribe(down.on_next, down.on_error, down.on_completed)
+        if case["via"] == "operator_sub":
+            target.pipe(ops.observe_on(sched)).subscribe(down.on_next, down.on_error, down.on_completed, scheduler=Other())
+        else:
+            target.pipe(ops.observe_on(sched)).subscribe(down.on_next, down.on_error, down.on_completed)
     pos = [0] * len(case["progs"])
     snaps = []
     escaped = []
@@ -149,7 +161,7 @@ def impl(case):
                     a(sched, st)
                 except InjectedError as e:
                     escaped.append(e.name)
-        snaps.append({"delivered": list(down.log), "pending": len(pending),
+        snaps.append({"delivered": list(down.log), "pending": len(pending), "other": len(other_pending),
                       "acq": obs.is_acquired if obs else None, "faulted": obs.has_faulted if obs else None,
                       "qlen": len(obs.queue) if obs else None})
     return {"snaps": snaps, "escaped": escaped}
@@ -202,6 +214,8 @@ def oracle(case, out):
     rec = [_rec_of(c) for c in _received(case)]
     prev = []
     raised = False
+    if any(s.get("other") for s in out["snaps"]):
+        return "observe_on scheduled its delivery on the subscribe-time scheduler, not on the scheduler given to observe_on (target scheduler)"
     for i, s in enumerate(out["snaps"]):
         d = s["delivered"]
         if d[: len(prev)] != prev:
